@@ -9,9 +9,9 @@ func init() {
 			"(3) rotation closes the old log on every success path after the pointer swap and Manager.Close closes the current log; " +
 			"(4) atomic publication of SSTables: in Writer.Finish all writes precede Sync, Sync precedes the rename (FinalizeFile), the file is created under the temporary name, loaders skip non-.sst files, flush publishes the reader only after Finish succeeded; " +
 			"(5) destructive file operations on database files are exactly the classified sites; " +
-			"(6) recovery hands every recovered memtable to the read path and restores the sequence counter from the replay maximum; (7) the newest log file is reused for appending only behind a clean entry-boundary scan (so that writes acknowledged after a recovery are themselves recoverable).",
+			"(6) recovery hands every recovered memtable to the read path and restores the sequence counter from the replay maximum; (7) the newest log file is reused for appending only behind a clean entry-boundary scan (so that writes acknowledged after a recovery are themselves recoverable); no read after the first of a record can leave as a clean io.EOF; (8) shared with C03/C09: the batch pre-validation uses writeRecord's own size formula and the buffer provision covers it; fragment writer and reader agree on chunk boundaries.",
 		NotDecided: "the state at arbitrary stop instants, torn writes, directory fsync, repeated crash/recover cycles — all need execution under fault injection.",
-		Rules:      []func(*Ctx, *Reporter){ruleStWriteAhead, ruleWalSyncBeforeAck, ruleStRotation, ruleStRecovery, ruleSstFinish, ruleDestructiveOps, ruleStFlushPublish, ruleReuseValidatesTail},
+		Rules:      []func(*Ctx, *Reporter){ruleStWriteAhead, ruleWalSyncBeforeAck, ruleStRotation, ruleStRecovery, ruleSstFinish, ruleDestructiveOps, ruleStFlushPublish, ruleReuseValidatesTail, ruleWalBatch, ruleWalFragmentation},
 	})
 	register(&PropertyDef{
 		ID: "C03",
@@ -19,18 +19,18 @@ func init() {
 			"(2) one batch — Commit calls ApplyBatch exactly once, not in a loop, never after the lock release; Rollback and the read-only arm never do; " +
 			"(3) ApplyBatch performs the log append and every memtable insert under one continuous exclusive hold of storage.Manager.mu, with no exit between the successful append and the inserts; point readers take it shared; " +
 			"(4) AppendBatch: no flush/sync between the record writes of a batch, every record carries one loop-invariant sequence number, and every input-dependent rejection of writeRecord is tested with the identical size formula before the first record is written; " +
-			"(5) Buffer.Put/Delete copy key and value before storing them (capture at call time) and assign the same map under string(key) (last operation wins); Rollback clears the buffer before releasing the lock.",
+			"(5) Buffer.Put/Delete copy key and value before storing them (capture at call time) and assign the same map under string(key) (last operation wins); Rollback clears the buffer before releasing the lock; a successful transactional Put/Delete has buffered exactly that operation; (6) shared with C02/C10: a log file is reused for appending only behind a clean tail (a torn batch is never followed by new commits in the same file).",
 		NotDecided: "atomicity across a crash (the log format has no batch frame: a torn batch cannot be recognised at replay — design remark, needs a crash to observe); concurrent-reader interleavings.",
-		Rules:      []func(*Ctx, *Reporter){ruleTxBufferIsolation, ruleTxApplyInside, ruleStSingleWriter, ruleStEffectOnce, ruleWalBatch, ruleTxBufferCapture, ruleTxRollbackClears, ruleTxOpsBuffered},
+		Rules:      []func(*Ctx, *Reporter){ruleTxBufferIsolation, ruleTxApplyInside, ruleStSingleWriter, ruleStEffectOnce, ruleWalBatch, ruleTxBufferCapture, ruleTxRollbackClears, ruleTxOpsBuffered, ruleReuseValidatesTail},
 	})
 	register(&PropertyDef{
 		ID: "C06",
 		Explanation: "Linearizability is a property of recorded histories and is NOT decided. Decided are structural preconditions without which it fails: " +
 			"(1) single-writer section — in Put/Delete/ApplyBatch the log append, the memtable insert and the lastSeqNum update execute under one exclusive hold of storage.Manager.mu (closures passed to RetryOnWALRotating are analysed in the caller's lock context); readers hold it shared; " +
 			"(2) error means no effect, success means once — no exit between a successful append and the insert, every feasible exit after the insert returns nil, the retry closure is re-run only on ErrWALRotating, which every Append* returns before consuming a number or writing a byte; " +
-			"(3) the stamp given to the memtable is the very number the log assigned; (4) WAL pointer discipline — Manager.wal is accessed atomically on the write path; (5) the retry wrapper's decision table (one call on success or on another error, an error after exhausted retries, re-run only on errors every Append* returns before any effect); (6) immutable memtables leave the pool (the read path) only into the flush path.",
+			"(3) the stamp given to the memtable is the very number the log assigned; (4) WAL pointer discipline — Manager.wal is accessed atomically on the write path; (5) the retry wrapper's decision table (one call on success or on another error, an error after exhausted retries, re-run only on errors every Append* returns before any effect); (6) immutable memtables leave the pool (the read path) only into the flush path; (7) shared with C08: the sequence counter is handed over to the new log at rotation (a write acknowledged after a flush is never shadowed by an older version with a higher stamp).",
 		NotDecided: "everything else: real-time order, stale reads across rotation, all schedules with background flush/compaction.",
-		Rules:      []func(*Ctx, *Reporter){ruleStSingleWriter, ruleStEffectOnce, ruleStStamps, ruleWalRotatingNoEffect, ruleStWalPointer, ruleLayersLeaveOnly},
+		Rules:      []func(*Ctx, *Reporter){ruleStSingleWriter, ruleStEffectOnce, ruleStStamps, ruleWalRotatingNoEffect, ruleStWalPointer, ruleLayersLeaveOnly, ruleStRotationSeqOnly},
 	})
 	register(&PropertyDef{
 		ID: "C08",
@@ -87,9 +87,9 @@ func init() {
 			"(3) version order — decision tables of entry.compareWithEntry, SkipList.Find's selection and SkipList.Insert's position (P-ORD over all orderings); flush keeps the first (newest) entry of a key unless a later one has a strictly higher sequence; " +
 			"(4) stamps — the memtable stamp is the number the log assigned; (5) empty is not deleted — no nil-collapsing copy reaches a 'nil means tombstone' sink and a value entry never keeps nil; " +
 			"(6) flush writes every collected entry, tombstones included, with its own sequence number; the tombstone marker constant is shared by block writer and reader; " +
-			"(7) the SSTable list is given a recency order when loaded from disk; (8) a successful transactional Put/Delete has buffered exactly that operation and pending operations leave the buffer only through Clear; immutable memtables leave the pool only into the flush path.",
+			"(7) the SSTable list is given a recency order when loaded from disk; (8) a successful transactional Put/Delete has buffered exactly that operation and pending operations leave the buffer only through Clear; immutable memtables leave the pool only into the flush path; (9) shared with C09: the buffered writer is never replaced without a flush and the fragment writer/reader agree on chunk boundaries (large values survive a reopen).",
 		NotDecided: "that the bytes returned equal the bytes put for every program (values); block/index seek landing inside SSTables (value-level binary search — the pinned tree gets this wrong, declared under C11); effects of memtable-size configurations.",
-		Rules:      []func(*Ctx, *Reporter){ruleLayerOrder, ruleTombstoneShortCircuit, ruleMemComparator, ruleMemFind, ruleMemInsert, ruleFlushRules, ruleStStamps, ruleEmptyNotDeleted, ruleTombstoneMarker, ruleRecencyAtLoad, ruleTxOpsBuffered},
+		Rules:      []func(*Ctx, *Reporter){ruleLayerOrder, ruleTombstoneShortCircuit, ruleMemComparator, ruleMemFind, ruleMemInsert, ruleFlushRules, ruleStStamps, ruleEmptyNotDeleted, ruleTombstoneMarker, ruleRecencyAtLoad, ruleTxOpsBuffered, ruleWalNoBufferDrop, ruleWalFragmentation},
 	})
 	register(&PropertyDef{
 		ID: "C05",
